@@ -63,3 +63,6 @@ classdef("NLopt", bases=["Algorithm"], fields={})
 classdef("NloptOpt", fields={})
 classdef("GradientEvaluator", bases=["Evaluator"], fields={"delta": "Real", "to_evaluate": "List[Ref[Individual]]", "n": "Int"})
 classdef("WorstCaseEvaluator", bases=["Evaluator"], fields={"to_evaluate": "List[Ref[Individual]]", "n": "Int"})
+classdef("BenchmarkFunction", bases=["Problem"], fields={"dimension": "Int"})
+for _c in ("DTLZI", "DTLZII", "DTLZIII", "DTLZIV", "ZDT1", "BiObjectiveTestProblem"):
+    classdef(_c, bases=["BenchmarkFunction"], fields={})
